@@ -87,6 +87,18 @@ func ZZ_C12_ersIsolation() {
 	if nondet.Bool("otherDaemonsetPod") {
 		add(dsPod("other-ds-pod", zzNS, "other", 0), false, false)
 	}
+	// a bare pod (no owner at all) whose labels match the old DaemonSet's selector: not "owned by the named old DaemonSet"
+	if nondet.Bool("ownerlessLookalikePod") {
+		p := dsPod("bare-pod", zzNS, "legacy", 0)
+		p.OwnerReferences = nil
+		add(p, false, false)
+	}
+	// a pod owned by a ReplicaSet that happens to be called like the old DaemonSet
+	if nondet.Bool("sameNameOtherKindOwnerPod") {
+		p := dsPod("rs-owned-pod", zzNS, "legacy", 1)
+		p.OwnerReferences[0].Kind = "ReplicaSet"
+		add(p, false, false)
+	}
 
 	_, err := zzReconcile(zzReconciler(c, false), zzNS, rsNew.Name)
 	nondet.Assert("C12.ers.noerror", err == nil)
